@@ -27,6 +27,9 @@ from .. import rustext, tlc
 from ..core import MachineryError, git_available
 
 rustext.install("py")            # the anchored code is Python; never load the stale in-tree .so files
+import logging  # noqa: E402
+logging.getLogger("dulwich").setLevel(logging.ERROR)
+logging.getLogger().setLevel(logging.ERROR)
 
 from .. import c14_exec as X     # noqa: E402
 from .. import c14_replay as RP  # noqa: E402
